@@ -49,7 +49,7 @@ func init() {
 				}
 				return ""
 			}
-			ast.Inspect(fd.Body, func(n ast.Node) bool {
+			ast.Inspect(reach("client/runtime.go", fd), func(n ast.Node) bool {
 				switch x := n.(type) {
 				case *ast.IndexExpr:
 					if sel(x.X) == "r.Consumers" && key == "" {
